@@ -180,6 +180,9 @@ def check(ctx, rep):
     rep.rule("R15d", "attribute content lines carry the one-space prefix (shared with C13/R13d)", floor=1)
     rep.rule("R15f", "item information is computed from the files of this request alone: no module- or class-level state written by the Gopher+ renderer or the entry population", floor=1)
     rep.rule("R15g", "handlers build item information without looking at the protocol that asks (the listing cache and +INFO/attribute blocks are shared by all protocols)", floor=1)
+    rep.rule("R15l", "+VIEWS gives MIME type, language and size whenever the size is known - a zero-length item has the size 0 (renderer evaluated "
+             "on 6 model entries)", floor=1)
+    views_block_obligations(ctx, rep, "R15l")
     rep.rule("R15k", "= R08d: merging a link-file block into a file's entry adds the block's attributes to the file's own side-file blocks - it does "
              "not replace them (mergeentries evaluated on model entries)", floor=0)
     from .c08 import _merge_by_evaluation
@@ -353,6 +356,55 @@ def check(ctx, rep):
 
 
 # ---------------------------------------------------------------------------------------------- R15j
+
+def views_block_obligations(ctx, rep, rule="R15l"):
+    """+VIEWS names the MIME type, the language when there is one, and the size when it is known - zero included: the renderer is
+    evaluated on model entries."""
+    from ..paths import Const, PathLimit, Walker
+
+    prog = ctx.prog
+    gp = ctx.cls("protocols.gopherp.GopherPlusProtocol")
+    f = prog.resolve_method(gp, "getviewsblock") if gp else None
+    if f is None or len(f.params) < 2:
+        rep.fail(rule, "GopherPlusProtocol.getviewsblock", detail="+VIEWS renderer not found")
+        return
+    cases = [({"mimetype": "text/plain", "language": None, "size": 5000}, "+VIEWS:\r\n text/plain: <4k>\r\n"),
+             ({"mimetype": "text/plain", "language": None, "size": 0}, "+VIEWS:\r\n text/plain: <0k>\r\n"),
+             ({"mimetype": "image/gif", "language": "En_US", "size": 0}, "+VIEWS:\r\n image/gif En_US: <0k>\r\n"),
+             ({"mimetype": "text/html", "language": None, "size": None}, "+VIEWS:\r\n text/html:\r\n"),
+             ({"mimetype": "application/gopher-menu", "language": None, "size": 1023}, "+VIEWS:\r\n application/gopher-menu: <0k>\r\n"),
+             ({"mimetype": None, "language": None, "size": 10}, "")]
+    problems, n = [], 0
+    for vals, want in cases:
+        holder = {}
+
+        def cv(call, target, st, _v=vals):
+            fn = call.func
+            if isinstance(fn, ast.Attribute) and isinstance(fn.value, ast.Name) and fn.value.id == f.params[1] and fn.attr.startswith("get") and fn.attr[3:] in _v:
+                v = _v[fn.attr[3:]]
+                a = holder["w"].cur_args or []
+                return Const(v) if v is not None or not a else a[0]
+            return None
+
+        w = Walker(prog, ctx.resolver, call_value=cv, exact_loops=True, unroll=4, max_paths=500,
+                   inline=lambda fn, t, d: d < 3 and (t.bound_cls is not None or (fn.cls is None and fn.module.name.startswith("pygopherd.protocols"))))
+        holder["w"] = w
+        outs = set()
+        try:
+            for p in w.run(f, gp, env={f.params[1]: Const("<entry>")}):
+                outs.add(p.value.value if p.kind == "return" and p.value is not None and p.value.kind == "const" else ("<" + str(p.value) + ">" if p.kind == "raise" else "?"))
+        except (PathLimit, Exception):
+            outs = {"?"}
+        if len(outs) != 1 or "?" in outs:
+            continue
+        n += 1
+        got = next(iter(outs))
+        if got != want:
+            problems.append(f"for an entry with type {vals['mimetype']!r}, language {vals['language']!r} and size {vals['size']!r} the block is {got!r}, prescribed {want!r}")
+    rep.add(rule, f"{f.qualname}: type, language and size - also a size of zero [{n} of {len(cases)} evaluated]", not problems and n >= 3, ctx.where(f),
+            "; ".join(problems[:2]) if problems else ("" if n >= 3 else "the walker could not follow the renderer"), key=f"{rule}|views", nontrivial=n > 0)
+
+
 def ea_block_obligations(ctx, rep, rule="R15j"):
     from ..paths import Const, PathLimit, Walker
 
